@@ -116,7 +116,8 @@ def g_p3(tier, cfgs=("s",)):
     return out
 
 
-P4B_QUICK = [(16, 3, 0, 0), (16, 3, 1, 0), (17, 0, 0, 0), (17, 2, 1, 0), (15, 1, 0, 0), (15, 2, 1, 2), (16, 0, 0, 1), (16, 2, 0, 3)]
+P4B_QUICK = [(16, 3, 0, 0), (16, 3, 1, 0), (17, 0, 0, 0), (17, 2, 1, 0), (15, 1, 0, 0), (15, 2, 1, 2), (16, 0, 0, 1), (16, 2, 0, 3),
+             (17, 0, 0, 3), (16, 0, 2, 0)]
 
 
 def p4b_cells(tier):
@@ -128,6 +129,7 @@ def p4b_cells(tier):
             for trail in (0, 1):
                 for dbl in ((0, 2) if pat in (1, 3) else (1, 3)):
                     cells.append((ntok, pat, trail, dbl))
+            cells.append((ntok, pat, 2, 0))
     return cells
 
 
@@ -267,3 +269,40 @@ P("C18", lambda t: [I("k9_create"), I("h_inject"), I("k7_keygen"), I("k8_crypt")
 P("C19", lambda t: g_t1(t, cfgs=("s", "u")) + g_t3_lemma(t, cfgs=("s", "u")) + g_t4(cfgs=("s", "u")) + g_p3(t, cfgs=("s", "u"))
   + g_p6(cfgs=("s", "u")) + (g_p4(t, cfgs=("s", "u")) if t == "thorough" else [I("p4_split", cfg=c, defs=["P4_LEN=12"], flags=UW(19), cap=300, rss=1.0) for c in ("s", "u")]))
 P("C20", lambda t: g_api() + g_p5() + [I("p2_layout"), I("p6_auto")], level="other")
+
+
+def post_c20(pid, tier, insts, workdir):
+    """static-object inventory + native ThreadSanitizer stress run (DESIGN.md C20)"""
+    import json, os
+    from . import core, statics
+    extra = {"coverage": {}, "violations": [], "inconclusive": []}
+    builder = core.Builder(workdir)
+    try:
+        inv = statics.inventory(builder)
+    except core.BuildError as e:
+        extra["inconclusive"].append(("static inventory", str(e)))
+        return extra
+    mutable = {n: o for n, o in inv.items() if not o["const"]}
+    new = {n: o for n, o in mutable.items() if n not in statics.KNOWN_STATICS}
+    ts = statics.tsan_stress(workdir, runs=3 if tier == "quick" else 10)
+    extra["coverage"]["static_mutable_objects"] = sorted(mutable)
+    extra["coverage"]["static_objects_outside_frame"] = sorted(new)
+    extra["coverage"]["tsan_stress"] = {k: v for k, v in ts.items() if k != "report"}
+    extra["coverage"]["traces_validated_against_impl"] = ts.get("runs", 0)
+    if ts["status"] == "race":
+        path = os.path.join("replays", "C20-tsan-0.json")
+        json.dump({"property": "C20", "harness": "tools/tsan_stress.c", "new_static_objects": list(new.values()),
+                   "tsan": ts, "repo_head": core.sh(["git", "-C", core.REPO, "rev-parse", "HEAD"]).stdout.strip()},
+                  open(os.path.join(core.VERIF, path), "w"), indent=1)
+        extra["violations"].append("VIOLATION property=C20 replay=%s" % path)
+        print("    tsan: %d data race reports, %d wrong results; static objects outside FRAME: %s" % (
+            ts.get("races", 0), ts.get("wrong_results", 0), ", ".join(sorted(new)) or "none"))
+    elif ts["status"] == "error":
+        extra["inconclusive"].append(("tsan_stress", ts.get("detail", "")))
+    elif new:
+        extra["inconclusive"].append(("static inventory", "static-lifetime mutable object(s) not covered by the FRAME assertions: %s; "
+                                      "the ThreadSanitizer stress run shows no race" % ", ".join(sorted(new))))
+    return extra
+
+
+PROPS["C20"]["post"] = post_c20
